@@ -6,6 +6,7 @@ request:  `gen <consumer> <L> <fuel> <tok> <tok> …`   (postfix: sources push, 
 answer:   `ok <value>` | `err` | `viol` | `fuel` | `bad-op`
 -/
 import XrayModel.Gen
+import XrayModel.GenLimits
 open XrayModel.Gen
 namespace XrayDriver.GenEng
 
@@ -197,7 +198,24 @@ end XrayDriver.GenEng
 namespace XrayDriver
 open XrayDriver.GenEng
 
+/-- `gen begincall <argErr 0|1> <udLimit|-> <calls> <deadline|-> <now>` and
+`gen tailiter <recLimit|-> <depth> <deadline|-> <now>`: the time gate (C10) -/
+def gateEngine (f : String) (args : List String) : Option String :=
+  open XrayModel.GenLimits in
+  match f, args with
+  | "begincall", [e, u, c, d, n] => do
+    let u ← GenEng.parseLimit u; let c ← c.toNat?; let d ← GenEng.parseLimit d; let n ← n.toNat?
+    pure (match (beginCall (e == "1") u c d n).1 with
+      | .errorArgument => "error-argument" | .violUDCall => "viol MaximumUDCall"
+      | .violTimeout => "viol Timeout" | .bodyRuns => "body-runs")
+  | "tailiter", [r, k, d, n] => do
+    let r ← GenEng.parseLimit r; let k ← k.toNat?; let d ← GenEng.parseLimit d; let n ← n.toNat?
+    pure (match (tailIteration r k d n).1 with
+      | .violRecursion => "viol MaximumRecursion" | .violTimeout => "viol Timeout" | .bodyRuns => "body-runs")
+  | _, _ => none
+
 def genEngine (f : String) (args : List String) : String :=
+  if f == "begincall" || f == "tailiter" then (gateEngine f args).getD "bad-op" else
   match args with
   | l :: fuel :: toks =>
     match parseLimit l, fuel.toNat?, buildG toks with
